@@ -38,6 +38,8 @@
 (*   W2  Out(m) is a subsequence of Out(m') for the next weaker mode m'    *)
 (*   W3  tokens outside May(m) appear in Out(m) exactly as in Out(None)    *)
 (*   W4  script / style text never appears                                 *)
+(*   WU  (W3 for the emitted units) tokens outside May(m) share a block /  *)
+(*       list item / cell in Out(m) iff they do in Out(None)               *)
 (***************************************************************************)
 EXTENDS Integers, Sequences, FiniteSets, SequencesExt, TLC
 
@@ -65,7 +67,7 @@ FlowBoxes   == {"body", "div", "section", "nav", "aside", "header", "footer", "b
 ContentTags == Headings \cup {"p", "li", "td", "th", "pre", "blockquote"}
 \* start tags that imply the end of an open p (HTML 13.1.2.4 optional tags)
 PEnders     == Headings \cup {"div", "section", "nav", "aside", "header", "footer", "blockquote",
-                              "p", "ul", "ol", "table", "pre"}
+                              "p", "ul", "ol", "table", "pre", "dl", "figure", "figcaption", "details"}
 AllForms    == {"plain", "amp", "num"}
 
 RoleHints   == {"role:navigation", "role:complementary", "role:banner", "role:contentinfo"}
@@ -111,22 +113,40 @@ TextDesc(form) == [tag |-> "#text", attr |-> form, planned |-> FALSE, plan |-> <
 IsText(d) == d.tag = "#text"
 
 \* ------------------------------------------------------- content models
-TextOK(f) == f.tag \in FlowBoxes \cup Headings \cup {"p", "li", "td", "th", "pre", "a", "script", "style"}
+\* containers of flow content besides the flow boxes: dd, figcaption, figure, details (after
+\* its summary); list items and table cells take phrasing, p, lists and - mixed content -
+\* div / section / nav / aside / table children as well
+CellLike == {"li", "td", "th"}
+FlowIn   == FlowBoxes \cup {"dd", "figcaption", "figure", "details"}
+Mixable  == {"div", "section", "nav", "aside"}
+
+TextOK(f) == \/ f.tag \in FlowBoxes \cup Headings \cup {"p", "li", "td", "th", "pre", "a", "script", "style"}
+             \/ f.tag \in {"dt", "dd", "figcaption", "summary", "figure"}
+             \/ f.tag = "details" /\ f.nch >= 1
 
 \* may a FREE step open element d inside frame f ?
 Allowed(f, d) ==
     /\ ~f.planned
     /\ d.tag \in FlowBoxes \ {"body"} =>
-          /\ f.tag \in FlowBoxes \/ (Lax /\ d.tag = "div" /\ f.tag \in {"ul", "ol"})
+          /\ \/ f.tag \in FlowIn
+             \/ d.tag \in Mixable /\ f.tag \in CellLike /\ d.planned   \* (as a ready-made child: keeps the small alphabets small)
+             \/ Lax /\ d.tag = "div" /\ f.tag \in {"ul", "ol"}
           /\ d.tag \in {"header", "footer"} => ~f.nohf
-    /\ d.tag \in Headings \cup {"table", "pre", "script"} => f.tag \in FlowBoxes
-    /\ d.tag = "p"  => f.tag \in FlowBoxes \cup {"li", "td", "th"}
-    /\ d.tag \in {"ul", "ol"} => f.tag \in FlowBoxes \cup {"li", "td", "th"} \cup (IF Lax THEN {"ul", "ol"} ELSE {})
+    /\ d.tag \in Headings \cup {"pre", "script"} => f.tag \in FlowIn
+    /\ d.tag = "table" => f.tag \in FlowIn \/ (f.tag \in CellLike /\ d.attr # "")   \* (in a cell: the excludable table)
+    /\ d.tag = "p"  => f.tag \in FlowIn \cup CellLike
+    /\ d.tag \in {"ul", "ol"} => f.tag \in FlowIn \cup CellLike \cup (IF Lax THEN {"ul", "ol"} ELSE {})
     /\ d.tag = "li" => f.tag \in {"ul", "ol"}
-    /\ d.tag = "a"  => ~f.inA /\ f.tag \in FlowBoxes \cup Headings \cup {"p", "li", "td", "th"}
-    /\ d.tag = "br" => f.tag \in Headings \cup {"p", "li", "td", "th"}
+    /\ d.tag = "a"  => ~f.inA /\ f.tag \in FlowIn \cup Headings \cup CellLike \cup {"p", "dt", "summary"}
+    /\ d.tag = "br" => f.tag \in Headings \cup CellLike \cup {"p", "dt", "summary"}
+    /\ d.tag \in {"dl", "figure", "details"} => f.tag \in FlowBoxes
+    /\ d.tag \in {"dt", "dd"} => f.tag = "dl"
+    /\ d.tag = "figcaption" => f.tag = "figure" /\ f.nch = 0
+    /\ d.tag = "summary" => f.tag = "details" /\ f.nch = 0
     /\ d.tag \in {"tr", "td", "th", "thead", "tbody", "tfoot", "style", "body", "#text"} => FALSE
     /\ f.tag \in {"ul", "ol"} => d.tag = "li" \/ (Lax /\ d.tag \in {"ul", "ol", "div"})
+    /\ f.tag = "dl" => d.tag \in {"dt", "dd"}
+    /\ f.tag = "details" /\ f.nch = 0 => d.tag = "summary"
     /\ f.tag \in {"pre", "a", "script", "style", "br", "table", "tr", "thead", "tbody", "tfoot"} => FALSE
 
 Top == stack[Len(stack)]
@@ -263,11 +283,25 @@ Contract(o) == /\ W1(o[1])
                /\ \A i \in 2..4 : W2(o[i], o[i - 1])
 
 \* the walker observed mode Modes[Len(outs)+1] next; the guard is the contract
+\* An observed token may carry, as a third component, the number of the emitted unit (block,
+\* list item, table cell) it came out in.  P2 strips it.
+P2(obs) == [i \in 1..Len(obs) |-> <<obs[i][1], obs[i][2]>>]
+HasUnits(obs) == \A i \in 1..Len(obs) : Len(obs[i]) = 3
+\* WU - W3 at the granularity of emitted units: content outside the subtrees mode m may
+\* exclude keeps its unit structure - two such tokens share a unit in Out(m) iff they share
+\* one in Out(None) (an excluded child must not glue the text before and after it together)
+CleanSeq(m, obs) == SelectSeq(obs, LAMBDA x : x[1] \in CleanIds(m))
+WU(m, obs, none) ==
+    (HasUnits(obs) /\ HasUnits(none)) =>
+        LET a == CleanSeq(m, obs) b == CleanSeq(m, none) IN
+        Len(a) = Len(b) => \A i \in 1..(Len(a) - 1) : (a[i][3] = a[i + 1][3]) <=> (b[i][3] = b[i + 1][3])
+
 Walk(m, obs) ==
     /\ Complete /\ Len(outs) < 4 /\ m = Modes[Len(outs) + 1]
-    /\ W4(obs)
-    /\ m = "none" => W1(obs)
-    /\ m # "none" => W2(obs, outs[Len(outs)]) /\ W3(m, obs, outs[1])
+    /\ W4(P2(obs))
+    /\ m = "none" => W1(P2(obs))
+    /\ m # "none" => /\ W2(P2(obs), P2(outs[Len(outs)])) /\ W3(m, P2(obs), P2(outs[1]))
+                      /\ WU(m, obs, outs[1])
     /\ outs' = Append(outs, obs)
     /\ UNCHANGED gvars
 
@@ -275,8 +309,8 @@ Walk(m, obs) ==
 \* its own choosing: only content that no mode may exclude is asserted
 WalkDefault(obs) ==
     /\ Complete /\ outs = <<>>
-    /\ W4(obs)
-    /\ Filter(obs, ContentIds \cap CleanIds("aggressive")) = Filter(Content, CleanIds("aggressive"))
+    /\ W4(P2(obs))
+    /\ Filter(P2(obs), ContentIds \cap CleanIds("aggressive")) = Filter(Content, CleanIds("aggressive"))
     /\ outs' = <<obs>>
     /\ UNCHANGED gvars
 
@@ -311,10 +345,14 @@ WellNested == /\ Len(StillOpen) = Len(stack) - 1
 
 \* HTML5 content models, stated on the result (covers planned children as well)
 ChildOK(pt, ct) ==
-    CASE pt \in FlowBoxes -> ct \in (FlowBoxes \ {"body"}) \cup Headings \cup {"p", "ul", "ol", "table", "pre", "a", "script"}
-      [] pt \in Headings \cup {"p"} -> ct = "a"
+    CASE pt \in FlowBoxes -> ct \in (FlowBoxes \ {"body"}) \cup Headings \cup {"p", "ul", "ol", "table", "pre", "a", "script",
+                                                                            "dl", "figure", "details"}
+      [] pt \in {"dd", "figcaption", "figure", "details"} ->
+              ct \in (FlowBoxes \ {"body"}) \cup Headings \cup {"p", "ul", "ol", "table", "pre", "a", "script", "figcaption", "summary"}
+      [] pt \in Headings \cup {"p", "dt", "summary"} -> ct = "a"
       [] pt \in {"ul", "ol"} -> ct = "li" \/ (Lax /\ ct \in {"ul", "ol", "div"})
-      [] pt \in {"li", "td", "th"} -> ct \in {"p", "ul", "ol", "a"}
+      [] pt \in CellLike -> ct \in {"p", "ul", "ol", "a", "table"} \cup Mixable
+      [] pt = "dl" -> ct \in {"dt", "dd"}
       [] pt = "table" -> ct \in {"thead", "tbody", "tfoot", "tr"}
       [] pt \in {"thead", "tbody", "tfoot"} -> ct = "tr"
       [] pt = "tr" -> ct \in {"td", "th"}
